@@ -18,7 +18,7 @@ RUN_TIMEOUT = 120
 SELFTEST_PAIRS = {"quick": 12, "thorough": 30}
 PROBES = ["predicate_reject", "predicate_accept", "boundary_exact", "directory_entries_present", "empty_entry_with_compressed_bytes", "forged_real_zip",
           "in_memory_zipinfo_list", "ordering_rejected_before_any_member_open", "ordering_accepted_validated_first", "position_preserved_on_reject",
-          "position_preserved_on_accept", "same_stream_object_reused", "duplicate_entry_names", "float_ratio_limits", "extractor_history", "file_entry_with_directory_attribute"]
+          "position_preserved_on_accept", "same_stream_object_reused", "duplicate_entry_names", "float_ratio_limits", "extractor_history", "file_entry_with_directory_attribute", "bytes_after_end_record"]
 RULE = ("predicate runs: entry vectors (file_size, compress_size, is_dir) on a boundary lattice x limit settings, served as in-memory ZipInfo lists "
         "and as real ZIPs with forged central directories to validate_zipfile / open_zipfile / validate_zip_bytesio, against a reference predicate; "
         "ordering runs: histories of 2-6 extractions through the ten ZIP-container extractors on corpus containers whose central directory is "
@@ -156,6 +156,7 @@ def gen_case(rng: random.Random, tier: str) -> dict:
         forge = rng.choice(["none", "none", "single_over", "single_at", "entry_ratio_over", "entry_ratio_at", "total_ratio_over", "zero_compressed",
                             "total_over", "dir_huge", "single_over_dosdir", "entry_ratio_over_dosdir"])
         steps.append({"doc": doc, "forge": forge, "member": rng.randrange(1 << 20), "reuse_stream": rng.random() < 0.5, "pos": rng.choice([0, 0, 3, 10 ** 7]),
+                      "trail": rng.choice([0] * 8 + [100, 70000]),  # bytes after the end record (a few: still a ZIP; > 64 KiB: the end record is out of reach)
                       "entry": rng.choice(["direct", "direct", "read_file", "archive_member"])})
     return {"mode": "ordering", "steps": steps}
 
@@ -388,6 +389,11 @@ def _run_ordering(case, log, viol, probes, nontriv):
         for si, st in enumerate(case["steps"]):
             ext = st["doc"].rsplit(".", 1)[-1].lower()
             data, want = _forge_container(_docs[st["doc"]], st["forge"], st["member"])
+            if st.get("trail"):
+                data += b"\x00" * st["trail"]
+                probes["bytes_after_end_record"] = probes.get("bytes_after_end_record", 0) + 1
+                if st["trail"] > 65535:
+                    want = None  # no longer readable as a ZIP at all: any family error will do -- but no member may be read unvalidated
             del events[:]
             exc = None
             entry = st["entry"]
